@@ -66,6 +66,12 @@ class Fixture(object):
         return one(o_attr).O_BATTR[106].O_DBATTR[107]()
 
     def prebuild(self):
+        # the translation must not depend on what was parsed earlier in the process: a rejected multi-line text first
+        from bridgepoint import oal
+        try:
+            oal.parse('x = 1;\ny = 2;\nif (true)\n z = (3;\n')
+        except oal.ParseException:
+            pass
         prebuild.prebuild_model(self.m)
 
     def generated_text(self, c):
